@@ -206,7 +206,8 @@ func (m *model) apply(o op) {
 	}
 }
 
-func (m *model) commit() {
+// commit returns the heights of the entries that became live (indexed).
+func (m *model) commit() (added []uint64) {
 	for _, r := range m.pending {
 		if r.prune {
 			if r.h > m.w {
@@ -223,9 +224,11 @@ func (m *model) commit() {
 		}
 		if r.h > m.w {
 			m.live = append(m.live, r)
+			added = append(added, r.h)
 		}
 	}
 	m.pending = nil
+	return added
 }
 
 // dropPending models a process death: buffered records are gone.
